@@ -60,6 +60,24 @@ def run_node(ctx, keys_for_pid, extra=None):
     traces = 150 if ctx.tier == "quick" else 1500
     sf, n = generate(ctx, "sim", traces, 14, ctx.seed, DumpEvery=8 if ctx.tier == "quick" else 6)
     res = replay(ctx, binp, sf, HCFG, "sim")
+    # reverts down to the finalized height (what a sync with a chain forking below it attempts): straight to finality,
+    # then DeleteDown / deletes / tie breaks / restarts / new blocks on the finalized prefix
+    sf2, n2 = generate(ctx, "deep", 60 if ctx.tier == "quick" else 600, 16, ctx.seed + 77, DeepRevert="TRUE", MaxChg=0, MaxDel=3, MaxSteps=14, DumpEvery=3)
+    res2 = replay(ctx, binp, sf2, HCFG, "deep")
+    deep = 0
+    for line in open(sf2):
+        sc = json.loads(line)["script"]
+        if any(sc[i]["op"] == "delete" and not sc[i]["ok"] and sc[i - 1]["op"] == "delete" and sc[i - 1]["ok"] for i in range(1, len(sc))):
+            deep += 1
+    for k, v in res2.items():
+        if isinstance(v, int) and not isinstance(v, bool):
+            res[k] = res.get(k, 0) + v
+        elif isinstance(v, dict):
+            for kk, vv in v.items():
+                res[k][kk] = res[k].get(kk, 0) + vv
+        elif isinstance(v, list) and k == "violations":
+            res[k] = (res.get(k) or []) + v
+    res["deep_reverts"] = deep
     other = []
     for v in res.get("violations") or []:
         if keys_for_pid(v["key"]):
@@ -72,12 +90,15 @@ def run_node(ctx, keys_for_pid, extra=None):
         sorted(set(v["key"] for v in res.get("violations") or []))))
     if other:
         log("[node] note: violations belonging to other properties of the Node family were observed: %s" % sorted(set(other)))
+    log("[node] reverts down to the finalized height replayed: %d" % res["deep_reverts"])
+    if not ctx.violations and res["deep_reverts"] == 0:
+        raise Inconclusive("no script reverted down to the finalized height: vacuous for finality under deep reverts")
     if not ctx.violations and (res["blocks_accepted"] < 100 or res["probes"] < 500 or res["scripts_with_finality"] == 0 or len(res["probe_kinds"]) < 20):
         raise Inconclusive("scripts did not exercise enough (blocks/probes/finality): vacuous")
     sample = json.loads(open(sf).readline())
     cov = dict(traces_validated_against_impl=res["scripts"], samples=[dict(script=sample["script"][:3], probes=[p["mut"] for p in sample["probes"]][:10])],
                replayed_steps=res["steps"], blocks_accepted=res["blocks_accepted"], deletes=res["deletes"], restarts=res["restarts"],
-               mutant_blocks_submitted=res["probes"], mutation_classes=res["probe_kinds"], scripts_with_finality=res["scripts_with_finality"],
+               mutant_blocks_submitted=res["probes"], mutation_classes=res["probe_kinds"], scripts_with_finality=res["scripts_with_finality"], reverts_down_to_finalized_height=res["deep_reverts"],
                apply_delete_roundtrips_compared=res["apply_delete_roundtrips_compared"], reorg_equivalences_compared=res["reorg_equivalences_compared"],
                rule="TLC simulation of Node.tla generates scripts; every step is replayed on the real Executer and the projected state / events compared; "
                     "every single-rule mutant of the final state's valid successor is submitted and must be rejected leaving DB, BFT heights and events unchanged")
